@@ -34,6 +34,8 @@ class Obligation:
     run: Optional[Callable[[str], Dict[str, Any]]] = None
     reach: bool = True  # generate the reachability twin
     weight: float = 1.0  # scheduling hint (expected seconds)
+    setorder: bool = False  # S8: solver-chosen set iteration order inside /repo/pyxform frames
+    hashseed_public: Optional[Callable[[Dict[str, Any]], Dict[str, Any]]] = None  # replay across PYTHONHASHSEED
     group: str = ""
 
     @property
@@ -87,7 +89,16 @@ def specialise(prop: str, oid: str, fn, fixed: Dict[str, Sequence[Any]], reach_i
 
     sig = inspect.signature(fn)
     names = list(sig.parameters)
-    docl = [ln.strip() for ln in (fn.__doc__ or "").splitlines() if ln.strip().split(":")[0] in ("pre", "post", "raises")]
+    # base functions carry `vpre:/vpost:/vraises:` so that CrossHair does not treat them as
+    # contract-bearing callees (it would enforce/short-circuit the call and hide violations)
+    docl = []
+    for ln in (fn.__doc__ or "").splitlines():
+        t = ln.strip()
+        head = t.split(":")[0]
+        if head in ("vpre", "vpost", "vraises"):
+            docl.append(t[1:])
+        elif head in ("pre", "post", "raises"):
+            raise RuntimeError(f"{fn.__name__}: base functions for specialise() must use vpre:/vpost:/vraises:")
     keys = list(fixed)
     out = []
     for combo in itertools.product(*(fixed[k] for k in keys)):
